@@ -18,6 +18,8 @@ type c05case struct {
 	offset int
 	comma  bool
 	where  bool
+	// distinct: SELECT DISTINCT b (the window then applies to the de-duplicated, possibly sorted, sequence)
+	distinct bool
 }
 
 type c05 struct {
@@ -48,6 +50,14 @@ func (p *c05) Init(tier string) {
 					p.cases = append(p.cases, c05case{keys: kl, limit: n, offset: m, where: where})
 					p.cases = append(p.cases, c05case{keys: kl, limit: n, offset: m, comma: true, where: where})
 				}
+			}
+		}
+	}
+	for _, kl := range [][]OrderKey{nil, {{"b", false}}, {{"b", true}}} {
+		for n := 0; n <= 3; n++ {
+			p.cases = append(p.cases, c05case{keys: kl, limit: n, offset: -1, distinct: true})
+			for m := 0; m <= 3; m++ {
+				p.cases = append(p.cases, c05case{keys: kl, limit: n, offset: m, distinct: true}, c05case{keys: kl, limit: n, offset: m, comma: true, distinct: true})
 			}
 		}
 	}
@@ -90,6 +100,10 @@ func (p *c05) NumCases() int { return len(p.cases) }
 
 func (p *c05) sel(c *c05case) *Select {
 	s := NewSelect("t", Item{E: Col{"id"}}, Item{E: Col{"a"}}, Item{E: Col{"b"}})
+	if c.distinct {
+		s = NewSelect("t", Item{E: Col{"b"}})
+		s.Distinct = true
+	}
 	if c.where {
 		s.Where = Cmp{"=", Col{"w"}, Lit{V: 1.0}}
 	}
@@ -166,6 +180,10 @@ func (p *c05) RunCase(i int) *core.CaseResult {
 	c := &p.cases[i]
 	sql := p.sel(c).SQL()
 	ks := keysString(c.keys)
+	if c.distinct {
+		p.runDistinct(r, c, sql)
+		return r
+	}
 	for ti, rows := range p.tables {
 		if len(c.keys) > 1 && p.hasNil[ti] {
 			continue // NULL placement is only specified for a single sort key
@@ -278,9 +296,66 @@ func (p *c05) RunCase(i int) *core.CaseResult {
 	return r
 }
 
+// runDistinct: SELECT DISTINCT b [ORDER BY b] LIMIT n [OFFSET m]: the exact window of the
+// de-duplicated (first occurrence kept) and then sorted sequence.
+func (p *c05) runDistinct(r *core.CaseResult, c *c05case, sql string) {
+	for _, rows := range p.tables {
+		var seq []string
+		seen := map[string]bool{}
+		for _, row := range rows {
+			b := row.(map[string]any)["b"].(string)
+			if !seen[b] {
+				seen[b] = true
+				seq = append(seq, b)
+			}
+		}
+		if len(c.keys) > 0 {
+			sort.Strings(seq)
+			if c.keys[0].Desc {
+				for i, j := 0, len(seq)-1; i < j; i, j = i+1, j-1 {
+					seq[i], seq[j] = seq[j], seq[i]
+				}
+			}
+		}
+		lo := 0
+		if c.offset > 0 {
+			lo = c.offset
+		}
+		if lo > len(seq) {
+			lo = len(seq)
+		}
+		hi := lo + c.limit
+		if hi > len(seq) {
+			hi = len(seq)
+		}
+		var want []any
+		for _, b := range seq[lo:hi] {
+			want = append(want, map[string]any{"b": b})
+		}
+		doc := map[string]any{"t": gq.Clone(rows)}
+		out := gq.Run(doc, sql)
+		r.Execs++
+		w := gq.Render(want)
+		if want == nil {
+			w = "[]"
+		}
+		got := outcome(out)
+		if got == "null" {
+			got = "[]"
+		}
+		if len(seq) > 1 && len(want) > 0 {
+			r.Nontrivial = true
+		}
+		r.Outcomes = append(r.Outcomes, fmt.Sprintf("distinct %d/%d", len(want), len(seq)))
+		if got != w {
+			r.Fail(fmt.Sprintf("C05|distinct|order=%s|window", keysString(c.keys)), fmt.Sprintf("%s on %s: got %s (%v), want %s", sql, gq.Render(rows), got, out.Err, w), map[string]any{"sql": sql, "doc": doc})
+		}
+	}
+}
+
 func (p *c05) Meta() core.Meta {
 	return core.Meta{
-		Rule: "one case per (key list in {none, a, a DESC, b, b DESC, 5 two-key lists}, limit in {absent,0..5}, offset in {absent,0..5}, both LIMIT spellings, with/without WHERE), run on every table of <= 3 (thorough 5) rows over 5 archetypes (ties on each key, a NULL key; NULL tables skipped for two-key lists); non-trivial = the expected window has > 1 row or selects 1 of several",
+		Rule: "one case per (key list in {none, a, a DESC, b, b DESC, 5 two-key lists}, limit in {absent,0..5}, offset in {absent,0..5}, both LIMIT spellings, with/without WHERE) and (SELECT DISTINCT b with {no key, b, b DESC} x limit 0..3 x offset absent,0..3), run on every table of <= 3 (thorough 5) rows over 5 archetypes (ties on each key, a NULL key; NULL tables skipped for two-key lists); non-trivial = the expected window has > 1 row or selects 1 of several",
 		Assumptions: []string{
 			"tie order is not fixed by the property: with ORDER BY the key tuples of the output are compared with those of the reference-sorted window, and the rows must be distinct source rows that passed WHERE",
 			"NULL placement is specified for a single sort key only",
